@@ -316,6 +316,11 @@ class C16:
             la = rnd.randint(1, 3)
             lb = rnd.randint(1, 3)
             pairs.append(("ctx", [rnd.randrange(n) for _ in range(la)], [rnd.randrange(n) for _ in range(lb)]))
+        # directed: a search path, then every operation of the pool, then a use of the search path
+        sp = [k for k, o in enumerate(OPS_POOL) if o[0] == "searchpath"][0]
+        ff = [k for k, o in enumerate(OPS_POOL) if o[0] == "findfile"][0]
+        for k in range(n):
+            pairs.append(("ctx", [sp, k, ff], [rnd.randrange(n)]))
         ni = len(INST_OPS)
         for _ in range(120 if tier == "quick" else 1200):
             la = rnd.randint(1, 3)
